@@ -521,12 +521,16 @@ def tail_unit(text):
 PPATH = "src/interpreter/src/patterns.rs"
 VARPAT_MODEL = """
 #[derive(Clone, Copy, PartialEq, Eq, Structural)]
-pub struct Value { pub id: u64 }
+pub enum Value { Bool(bool), Other(u64) }
 pub struct MechError { pub id: u64 }
+pub struct Interpreter { pub id: u64 }
 pub struct Ident { pub id: u64 }
 pub uninterp spec fn ident_hash(i: Ident) -> u64;
 impl Ident { #[verifier::external_body] pub fn hash(&self) -> (r: u64) ensures r == ident_hash(*self), { unimplemented!() } }
 pub struct Var { pub name: Ident }
+pub struct Expression { pub id: u64 }
+#[derive(Clone, Copy, PartialEq, Eq, Structural)]
+pub enum PatternMatchSemantics { Standard, OptionGuard }
 // the environment of bindings made so far by the enclosing pattern (HashMap<u64, Value>)
 pub struct Environment { pub m: Ghost<Map<u64, Value>> }
 impl Environment {
@@ -537,6 +541,21 @@ impl Environment {
   #[verifier::external_body]
   pub fn insert(&mut self, k: u64, v: Value) ensures final(self).m@ == old(self).m@.insert(k, v), { unimplemented!() }
 }
+pub uninterp spec fn var_id_of(e: Expression) -> Option<u64>;                       // extract_pattern_variable_id: the expression is a (wrapped) variable
+pub uninterp spec fn ev(e: Expression, env: Map<u64, Value>) -> Option<Value>;      // expression(e, Some(env), p); None = error
+pub uninterp spec fn vmatch(a: Value, b: Value) -> bool;                            // values_match
+pub uninterp spec fn detach(v: Value) -> Value;                                     // deep_detach_value
+#[verifier::external_body]
+pub fn extract_pattern_variable_id(e: &Expression) -> (r: Option<u64>) ensures r == var_id_of(*e), { unimplemented!() }
+#[verifier::external_body]
+pub fn expression(e: &Expression, env: Option<&Environment>, p: &Interpreter) -> (r: Result<Value, MechError>)
+  requires env is Some,
+  ensures (match r { Ok(v) => ev(*e, env.unwrap().m@) == Some(v), Err(_) => ev(*e, env.unwrap().m@) is None }),
+{ unimplemented!() }
+#[verifier::external_body]
+pub fn values_match(a: &Value, b: &Value) -> (r: bool) ensures r == vmatch(*a, *b), { unimplemented!() }
+#[verifier::external_body]
+pub fn deep_detach_value(v: &Value) -> (r: Value) ensures r == detach(*v), { unimplemented!() }
 // ---- THE CONTRACT (C16: "pattern variables bound to the matched parts"): a variable pattern whose name is NOT yet bound matches anything and
 // binds the name to the matched part; a name that IS already bound (a variable repeated in the pattern) matches only a part equal to the
 // value it is bound to, and never rebinds it
@@ -544,47 +563,59 @@ pub open spec fn var_rule(id: u64, v: Value, before: Map<u64, Value>, after: Map
   if before.contains_key(id) { res == Ok::<bool, MechError>(before[id] == v) && after == before }
   else { res == Ok::<bool, MechError>(true) && after == before.insert(id, v) }
 }
+// any other expression pattern (a literal, a formula): it is evaluated under the bindings made so far and matches iff its value matches the part (under option-guard
+// semantics a boolean-valued expression IS the answer); it binds nothing; a failing evaluation is an error
+pub open spec fn expr_rule(e: Expression, v: Value, sem: PatternMatchSemantics, before: Map<u64, Value>, after: Map<u64, Value>, res: Result<bool, MechError>) -> bool {
+  after == before && (match ev(e, before) {
+    None => res is Err,
+    Some(x) => res == Ok::<bool, MechError>(match (sem, x) { (PatternMatchSemantics::OptionGuard, Value::Bool(flag)) => flag, _ => vmatch(detach(x), v) }),
+  })
+}
 """
 
 
-def varpat_fns(text):
-    """the two variable arms of `pattern_matches_value_with_semantics`: (a) `Pattern::Expression(Expression::Var(var)) => {..}` (when the arm
-    exists: the generic arm below subsumes it) as `fn var_arm(var, detached_value, env)`, (b) of the arm `Pattern::Expression(expr) => {..}` the
-    block `if let Some(var_id) = extract_pattern_variable_id(expr) {..}` as `fn wrapped_var_arm(var_id, detached_value, env)` (what follows the
-    block is reached only for non-variable expressions: `unreached()`); `existing == &detached_value` -> `*existing == detached_value`"""
+def varpat_fns(text, features=None):
+    """the two expression arms of `pattern_matches_value_with_semantics`: (a) `Pattern::Expression(Expression::Var(var)) => {..}` (when the arm
+    exists: the generic arm below subsumes it) as `fn var_arm(var, detached_value, env)`, (b) the arm `Pattern::Expression(expr) => {..}` (whole) as
+    `fn expr_arm(expr, detached_value, env, p, semantics)`; `existing == &detached_value` -> `*existing == detached_value`, `Some(env)` -> `Some(&*env)`
+    (explicit reborrow), `*flag.borrow()` -> `*flag`, `MResult` -> `Result<_, MechError>`; cfg attributes evaluated for the default features"""
     sig, body = extract_fn(text, "pattern_matches_value_with_semantics")
     b = re.sub(r"//[^\n]*", "", body).replace("\r", "")
+    if features is not None:
+        b = apply_cfg(b, features)
     out, fns = "", []
     def fix(s):
         s = re.sub(r"\b(\w+)\s*==\s*&(\w+)", r"*\1 == \2", s)
-        if re.search(r"\b(expression|values_match|semantics|p)\b", s):
-            raise AnchorLost("pattern_matches_value_with_semantics: a variable arm is outside the transcription rules")
+        s = re.sub(r"\bSome\(\s*env\s*\)", "Some(&*env)", s)
+        s = re.sub(r"\*(\w+)\.borrow\(\)", r"*\1", s)
         return s
     ma = re.search(r"Pattern::Expression\(\s*Expression::Var\(\s*(\w+)\s*\)\s*\)\s*=>\s*\{", b)
     if ma:
         e = match_brace(b, ma.end() - 1)
+        arm = fix(b[ma.end():e - 1])
+        if re.search(r"\b(expression|values_match|semantics|p)\b", arm):
+            raise AnchorLost("pattern_matches_value_with_semantics: the variable arm is outside the transcription rules")
         out += ("fn var_arm(%s: &Var, detached_value: Value, env: &mut Environment) -> (res: Result<bool, MechError>)\n"
                 "  ensures var_rule(ident_hash(%s.name), detached_value, old(env).m@, final(env).m@, res),\n{\n" % (ma.group(1), ma.group(1))
-                + fix(b[ma.end():e - 1]) + "\n}\n")
+                + arm + "\n}\n")
         fns.append("var_arm")
     mb = re.search(r"Pattern::Expression\(\s*(\w+)\s*\)\s*=>\s*\{", b)
     if not mb:
         raise AnchorLost("pattern_matches_value_with_semantics: the arm `Pattern::Expression(expr)` not found")
-    arm = b[mb.end():match_brace(b, mb.end() - 1) - 1]
-    mi = re.match(r"\s*if\s+let\s+Some\(\s*(\w+)\s*\)\s*=\s*extract_pattern_variable_id\(\s*%s\s*\)\s*\{" % mb.group(1), arm)
-    if not mi:
-        raise AnchorLost("pattern_matches_value_with_semantics: the arm `Pattern::Expression(expr)` does not start with the variable test")
-    e = match_brace(arm, mi.end() - 1)
-    out += ("#[verifier::external_body]\nfn unreached() -> (r: Result<bool, MechError>) requires false, { unimplemented!() }\n"
-            "fn wrapped_var_arm(%s: u64, detached_value: Value, env: &mut Environment) -> (res: Result<bool, MechError>)\n"
-            "  ensures var_rule(%s, detached_value, old(env).m@, final(env).m@, res),\n{\n" % (mi.group(1), mi.group(1))
-            + fix(arm[mi.end():e - 1]) + "\n  unreached()\n}\n")
-    fns.append("wrapped_var_arm")
+    ex = mb.group(1)
+    arm = fix(b[mb.end():match_brace(b, mb.end() - 1) - 1])
+    if re.search(r"\b(borrow|cfg)\b", arm):
+        raise AnchorLost("pattern_matches_value_with_semantics: the expression arm is outside the transcription rules")
+    out += ("fn expr_arm(%s: &Expression, detached_value: Value, env: &mut Environment, p: &Interpreter, semantics: PatternMatchSemantics) -> (res: Result<bool, MechError>)\n"
+            "  ensures (match var_id_of(*%s) {\n"
+            "      Some(id) => var_rule(id, detached_value, old(env).m@, final(env).m@, res),\n"
+            "      None => expr_rule(*%s, detached_value, semantics, old(env).m@, final(env).m@, res) }),\n{\n" % (ex, ex, ex) + arm + "\n}\n")
+    fns.append("expr_arm")
     return out, fns
 
 
-def varpat_unit(text):
-    body, fns = varpat_fns(text)
+def varpat_unit(text, features=None):
+    body, fns = varpat_fns(text, features)
     return "use vstd::prelude::*;\nverus! {\n" + VARPAT_MODEL + body + vlib.verus_canary("canary_varpat", "x: u64", []) + "\n} // verus!\nfn main() {}\n", fns
 
 
